@@ -1,1 +1,32 @@
-fn main() { println!("{}", serde_json::json!({"ok": true})); }
+mod core;
+mod extract;
+mod replay;
+
+fn arg(args: &[String], name: &str) -> Option<String> {
+    args.iter().position(|a| a == name).and_then(|p| args.get(p + 1)).cloned()
+}
+
+fn main() {
+    let args: Vec<String> = std::env::args().collect();
+    // panics of the code under test are data; keep their messages out of stderr noise
+    std::panic::set_hook(Box::new(|_| {}));
+    match args.get(1).map(|s| s.as_str()) {
+        Some("extract") => {
+            let v = extract::extract();
+            let s = serde_json::to_string(&v).unwrap();
+            if let Some(p) = args.get(2) { std::fs::write(p, s).unwrap(); } else { println!("{s}"); }
+        }
+        Some("replay") => {
+            let input = arg(&args, "--in").expect("--in");
+            let outdir = arg(&args, "--out").expect("--out");
+            let nm: usize = arg(&args, "--models").and_then(|s| s.parse().ok()).unwrap_or(2);
+            let seed: u64 = arg(&args, "--seed").and_then(|s| s.parse().ok()).unwrap_or(1);
+            let sample: usize = arg(&args, "--sample").and_then(|s| s.parse().ok()).unwrap_or(200);
+            let names: Vec<String> = arg(&args, "--names").map(|s| s.split(',').map(|x| x.to_string()).collect()).unwrap_or_default();
+            let ser = args.iter().any(|a| a == "--ser");
+            let r = replay::replay(&input, &outdir, nm, seed, sample, names, ser);
+            println!("{r}");
+        }
+        _ => { eprintln!("usage: vh extract|replay ..."); std::process::exit(2); }
+    }
+}
